@@ -235,7 +235,8 @@ def execute(plan):
                 stats["nj.no_next_iterate"] += 1
             else:
                 verdict, info, act = compare_restart(
-                    problem, cfg, store.eager[-1], np.asarray(ref.result.x, dtype=float), k + 1, plan["crash_seed"] + k, stats, ref_act=ref
+                    problem, cfg, store.eager[-1], np.asarray(ref.result.x, dtype=float), k + 1, plan["crash_seed"] + k, stats, ref_act=ref,
+                    ref_searches_before=len(R[k].ls_log),
                 )
                 stats["or.recovery"] += 1
                 if verdict == "ok" and act.result.nit != ref.result.nit:
@@ -256,6 +257,7 @@ def execute(plan):
                     v2, info2, _a2 = compare_restart(
                         problem, cfg, store.eager[-1], np.asarray(ref2.result.x, dtype=float), k + 2,
                         plan["crash_seed"] + 7 * k, stats, ref_act=ref2, rel_step_tol=1e-5,
+                        ref_searches_before=len(R[k].ls_log),
                     )
                     stats["or.recovery_second_iterate"] += 1
                     if v2 == "fail":
